@@ -206,6 +206,22 @@ TDump ==
              /\ {seq[i][1] : i \in DOMAIN seq} = {it[2] : it \in items}
              /\ \A i \in 1..(Len(seq) - 1) : SeqLeq(keyOf(seq[i][1]), keyOf(seq[i + 1][1]))
              /\ S.sx[n].col # Detached => \A i \in DOMAIN seq : seq[i][2] = ValueAt(S, S.sx[n].col, seq[i][1])[2]
+        \* the same over a narrow selection (the rows whose value in column Ev.narrow.col equals Ev.narrow.k): exactly the
+        \* selected rows that have an entry, in order
+        /\ "narrow" \in DOMAIN Ev =>
+             LET nc == Ev.narrow.col IN
+             /\ nc \in DOMAIN S.reg
+             /\ \A n \in DOMAIN Ev.narrow.seq :
+                  /\ n \in DOMAIN S.sx
+                  /\ LET seq == Ev.narrow.seq[n]
+                         items == {it \in S.sx[n].items : /\ it[2] \in DumpRows(S, mode) /\ it[2] \in S.has[nc]
+                                                          /\ S.data[nc][it[2]] = Ev.narrow.k}
+                         keyOf(o) == (CHOOSE it \in items : it[2] = o)[1]
+                     IN
+                     /\ Len(seq) = Cardinality(items)
+                     /\ {seq[i][1] : i \in DOMAIN seq} = {it[2] : it \in items}
+                     /\ \A i \in 1..(Len(seq) - 1) : SeqLeq(keyOf(seq[i][1]), keyOf(seq[i + 1][1]))
+                     /\ S.sx[n].col # Detached => \A i \in DOMAIN seq : seq[i][2] = ValueAt(S, S.sx[n].col, seq[i][1])[2]
 
 \* ---- diagnostics (development aid, used by bin/explain): what differs between the event and the model state
 DumpDiag ==
